@@ -182,6 +182,58 @@ def client_history(rep, fname):
                       asked=asked, frame_len=len(frame), got=got, earlier=[t[2] for t in trace[:3]])
 
 
+def client_retries(rep, fname):
+    """a client that RETRIES (retry_on_empty): the unit was silent for a whole call, then is silent on the first attempt of
+    the next call and answers the retry — with an exception reply, or with the normal reply.  On every attempt the
+    client must ask the port for exactly the bytes of what arrives (the unit's place on the list of silent units must not
+    make a retry ask for the normal length when the exception reply comes)."""
+    fcls = FRAMERS[fname]
+    from pymodbus.register_read_message import ReadHoldingRegistersResponse
+    m = {'t': 'readHolding', 'address': 0, 'count': 10}
+    for label, mk_reply in (('exception', lambda: ExceptionResponse(3, 2)), ('normal', lambda: ReadHoldingRegistersResponse(list(range(10))))):
+        for silent_attempts in (1, 2):
+            c = StubClient(fcls, b'')
+            c.transaction.retry_on_empty = True
+            c.transaction.retries = 3
+            attempts = []          # (bytes offered to this attempt, sizes asked during it)
+            script = []
+
+            def send(data, c=c, attempts=attempts, script=script):
+                c.sent.append(bytes(data))
+                c.reply, c.pos = (script.pop(0) if script else b''), 0
+                c.asked = []
+                attempts.append((c.reply, c.asked))
+                return len(data)
+            c.send = send
+
+            def call(per_attempt):
+                req = msggen.mk_req(m)
+                req.unit_id = 1
+                script[:] = per_attempt
+                try:
+                    got = c.transaction.execute(req)
+                except Exception as e:  # noqa
+                    return {'raised': errkind(e)}
+                return {'error_object': True} if isinstance(got, Exception) else pdus.resp_to_json(got)
+            first = call([])                                   # silent on every attempt: the unit is now listed as silent
+            reply = mk_reply()
+            reply.unit_id = 1
+            reply.transaction_id = (c.transaction.tid + 1) & 0xFFFF
+            frame = StubClient(fcls).framer.buildPacket(reply)
+            del attempts[:]
+            got = call([b''] * silent_attempts + [frame])
+            expect = pdus.resp_to_json(ClientDecoder().decode(bytes([reply.function_code]) + reply.encode()))
+            case = {'kind': 'client-retries', 'framer': fname, 'reply': label, 'silent_attempts': silent_attempts}
+            rep.case(('retries', fname, label, silent_attempts), nontrivial=True, tag='client-retries:' + fname)
+            answered = [(off, asked) for off, asked in attempts if off]
+            over = [[list(asked), len(off)] for off, asked in answered
+                    if asked and all(a is not None for a in asked) and sum(asked) != len(off)]
+            if first != {'error_object': True} or got != expect or over or len(attempts) != silent_attempts + 1:
+                rep.violation('a retrying client did not read exactly the reply that answered its retry', case,
+                              first_call=first, got=got, expected=expect, attempts=[[len(off), list(asked)] for off, asked in attempts],
+                              asked_vs_frame=over)
+
+
 def client_echo(rep, fname):
     """serial clients with handle_local_echo: the echo of the request is read first, then the reply — an exception reply
     must still be read with ITS length"""
@@ -294,6 +346,7 @@ def run(ctx):
         client_history(rep, fname)
         if fname in ('rtu', 'ascii', 'binary'):
             client_echo(rep, fname)
+            client_retries(rep, fname)
     # exception replies through every framing
     for fname in framer_names:
         for m in (reqs[0], reqs[4000], {'t': 'writeRegister', 'address': 1, 'value': 2}, dreqs[0]):
